@@ -867,6 +867,26 @@ Definition genv_heap (gd : guards) (g : genv) (extra : pystr -> list (pystr * py
     | None => if pystr_eqb o n_TypedPyDefaults then defaults_attr gd a else None
     end.
 
+(* What the translated functions ask a heap about the classes of an environment: any heap that answers like this
+   will do (the heap [genv_heap] does: [genv_env_view]; so does the heap StructMeta.__new__ works in) *)
+Record env_view (hp : heap) (gd : guards) (g : genv) (extra : pystr -> list (pystr * pyval)) : Prop := {
+  ev_struct : forall c, obj_isinstance hp (ref c) (s2p "StructMeta") =
+                        Ok (match find_klass g c with Some k => k_is_struct k | None => false end);
+  ev_fieldmeta : forall c, obj_isinstance hp (ref c) (s2p "FieldMeta") = Ok false;
+  ev_subclass : forall c k r, find_klass g c = Some k -> obj_issubclass hp (ref c) (ref r) = Ok (str_in r (k_mro k));
+  ev_signature : forall b kb, find_klass g b = Some kb ->
+      dv_getattr hp (ref b) (s2p "__signature__") = Ok (v_sig (k_sig_req kb) (k_sig_opt kb) (k_sig_kwargs kb));
+  ev_class_dict : forall b kb, find_klass g b = Some kb ->
+      dv_getattr hp (ref b) (s2p "__dict__") = Ok (PDict (skeys (class_dict kb (extra b))));
+  ev_mro : forall b kb, find_klass g b = Some kb -> dv_getattr hp (ref b) (s2p "mro()") = Ok (PList (v_refs (k_mro kb)));
+  ev_addl_default : find_klass g n_TypedPyDefaults = None ->
+      dv_getattr hp (ref (s2p "TypedPyDefaults")) (s2p "additional_properties_default") = Ok (PBool (gd_additional_default gd));
+  ev_fields : forall x kx, find_klass g x = Some kx ->
+      dv_getattr_def hp (ref x) (s2p "_fields") (PList []) = Ok (v_names (map fst (k_own kx)));
+  ev_member : forall x kx n, find_klass g x = Some kx -> In n (map fst (k_own kx)) ->
+      pseudo_attr n = false -> str_in n special_class_attrs = false ->
+      dv_getattr_dyn hp (ref x) (PStr n) = Ok (ref (member_obj x n)) }.
+
 Section EnvHeap.
   Variable gd : guards.
   Variable g : genv.
@@ -932,22 +952,24 @@ Proof. reflexivity. Qed.
 
 (* _check_for_final_violations(clsobj.mro()) for a class whose MRO is name :: mro_tail: TypeError exactly when the
    model's [final_violation] holds, None otherwise -- for every environment and every MRO *)
-Theorem check_final_src so X gd g extra name mro_tail :
-  DefineSrc.check_for_final_violations so X (genv_heap gd g extra) (PList (v_refs (name :: mro_tail))) =
+Theorem check_final_gen so X hp gd g extra name mro_tail :
+  env_view hp gd g extra ->
+  DefineSrc.check_for_final_violations so X hp (PList (v_refs (name :: mro_tail))) =
   if final_violation g mro_tail then Raise TypeError else Ok PNone.
 Proof.
+  intro Hev.
   unfold DefineSrc.check_for_final_violations. cbv zeta.
   unfold py_unpack. cbn [v_refs map py_iter_items bind length Nat.leb firstn skipn app].
   rewrite deref_list. cbn [dv_iter bind]. fold (v_refs mro_tail).
   rewrite (foldM_check _ (fun c => strict_sub g c n_Final || strict_sub g c n_Immutable) TypeError).
   - unfold final_violation. destruct (existsb _ mro_tail); reflexivity.
   - intro c. cbn [bind]. rewrite globals_Final, globals_Immutable, globals_FieldMeta.
-    rewrite heap_isinstance_struct, heap_isinstance_fieldmeta. unfold strict_sub.
+    rewrite (ev_struct _ _ _ _ Hev), (ev_fieldmeta _ _ _ _ Hev). unfold strict_sub.
     cbn [py_and bind]. destruct (find_klass g c) as [k|] eqn:Hk.
     2:{ rewrite !andb_false_r. reflexivity. }
     destruct (k_is_struct k); cbn [andb].
     2:{ rewrite !andb_false_r. reflexivity. }
-    rewrite !(heap_issubclass gd g extra c k _ Hk), !ne_refs. cbn [bind py_and].
+    rewrite !(ev_subclass _ _ _ _ Hev c k _ Hk), !ne_refs. cbn [bind py_and].
     change (s2p "FinalStructure") with n_Final. change (s2p "ImmutableStructure") with n_Immutable.
     destruct (str_in n_Final (k_mro k)); cbn [bind deref py_truthy andb];
       destruct (pystr_eqb c n_Final); cbn [negb andb orb bind deref py_truthy];
@@ -1191,7 +1213,8 @@ Section BaseInfo.
   Variable g : genv.
   Variable extra : pystr -> list (pystr * pyval).
   Variable so : set_order.
-  Notation hp := (genv_heap gd g extra).
+  Variable hp : heap.
+  Hypothesis Hev : env_view hp gd g extra.
   Hypothesis Hdef : find_klass g n_TypedPyDefaults = None.
 
   (* base_info without the final test that no **kwargs is left over *)
@@ -1257,7 +1280,7 @@ Section BaseInfo.
   Proof.
     intro Hb. unfold base_ok in Hb. destruct (find_klass g b) as [kb|] eqn:Hk; [|discriminate].
     apply andb_true_iff in Hb as [Hb _]. apply andb_true_iff in Hb as [Hb _]. apply eqb_prop in Hb.
-    rewrite (heap_issubclass gd g extra b kb _ Hk). change (s2p "Structure") with n_Structure. rewrite <- Hb.
+    rewrite (ev_subclass _ _ _ _ Hev b kb _ Hk). change (s2p "Structure") with n_Structure. rewrite <- Hb.
     unfold keep. rewrite Hk. unfold dv_is_not, dv_is. rewrite !is_ref_ref. cbn [py_and bind].
     destruct (k_is_struct kb); cbn [bind andb]; [|reflexivity]. destruct (pystr_eqb b n_Structure); reflexivity.
   Qed.
@@ -1331,21 +1354,22 @@ End HeapReads.
 
 (* get_base_info(bases) on the classes of the environment = the model's [base_info]: the same parameters in the
    same order with the same required ones, or the same exception -- whenever the model does not decline *)
-Theorem get_base_info_src so X gd g extra bases r :
+Theorem get_base_info_gen so X hp gd g extra bases r :
+  env_view hp gd g extra ->
   bases_ok g extra bases = true ->
   base_info gd g bases [] false = r -> r <> Raise Unmodelled ->
-  DefineSrc.get_base_info so X (genv_heap gd g extra) (PTuple (v_refs bases)) =
+  DefineSrc.get_base_info so X hp (PTuple (v_refs bases)) =
   match r with
   | Ok bp => Ok (PTuple [v_params bp; v_names (bases_required bp)])
   | Raise x => Raise x
   end.
 Proof.
-  intros Hok Hr Hnu. unfold bases_ok in Hok. apply andb_true_iff in Hok as [Hbs Hdef].
+  intros Hev Hok Hr Hnu. unfold bases_ok in Hok. apply andb_true_iff in Hok as [Hbs Hdef].
   apply negb_true_iff in Hdef. assert (Hd : find_klass g n_TypedPyDefaults = None) by (destruct (find_klass g n_TypedPyDefaults); [discriminate|reflexivity]).
   clear Hdef.
   unfold DefineSrc.get_base_info. cbv zeta. rewrite globals_Structure. cbn [bind]. rewrite deref_tuple. cbn [dv_iter bind].
   rewrite (comp_refs _ (keep g)).
-  2:{ intros b Hb. cbn [bind]. apply select_base. rewrite forallb_forall in Hbs. apply Hbs. exact Hb. }
+  2:{ intros b Hb. cbn [bind]. apply (select_base gd g extra hp Hev). rewrite forallb_forall in Hbs. apply Hbs. exact Hb. }
   cbn [bind]. rewrite deref_list. cbn [dv_iter bind].
   match goal with |- context [@dv_foldM ?S ?F] => set (OUT := F) end.
   assert (Hloop : forall bs, (forall b, In b bs -> base_ok g extra b = true /\ keep g b = true) ->
@@ -1367,7 +1391,7 @@ Proof.
       apply andb_true_iff in Hbok as [Hbok Hex]. apply andb_true_iff in Hbok as [_ Hnk]. apply negb_true_iff in Hnk.
       cbn [v_refs map]. fold (v_refs t). unfold dv_foldM at 1 2. cbn [py_foldM]. fold (@dv_foldM (pyval * pyval)).
       unfold OUT at 1 3. cbv beta iota. cbn [bind].
-      rewrite (heap_signature gd g extra b kb Hk). cbn [bind]. rewrite sig_parameters. cbn [bind].
+      rewrite (ev_signature _ _ _ _ Hev b kb Hk). cbn [bind]. rewrite sig_parameters. cbn [bind].
       rewrite deref_dict, items_skeys. cbn [bind]. rewrite deref_view, iter_items_view. cbn [bind].
       rewrite app_assoc, sig_items_params, map_app, foldM_app.
       match goal with |- context [@dv_foldM _ ?F2 (map v_item (params_al _))] => set (IN := F2) end.
@@ -1395,11 +1419,11 @@ Proof.
       { unfold sig_params. rewrite map_app, !map_map. cbn [fst]. rewrite !map_id. intro Hin. apply str_in_In in Hin. congruence. }
       destruct (inner_params IN Hparam (sig_params kb) acc kw D Hrep Hnk') as [D1 [Hr1 Hf1]]. rewrite Hf1. cbn [bind].
       destruct (inner_kw IN Hkwargs (k_sig_kwargs kb) _ _ _ Hr1) as [D2 [Hr2 Hf2]]. rewrite Hf2. cbn [bind]. cbv beta iota.
-      rewrite (heap_class_dict gd g extra b kb Hk), (heap_addl_default gd g extra Hd). cbn [bind]. rewrite !deref_dict.
+      rewrite (ev_class_dict _ _ _ _ Hev b kb Hk), (ev_addl_default _ _ _ _ Hev Hd). cbn [bind]. rewrite !deref_dict.
       rewrite (class_dict_old kb (extra b) _ Hex). cbn [bind].
       rewrite ?deref_dict. rewrite (class_dict_addl kb (extra b) _ Hex). cbn [bind].
       set (acc' := merge_params acc (sig_params kb)) in *. set (kw' := kw || k_sig_kwargs kb) in *.
-      replace (deref (genv_heap gd g extra) match k_additional kb with Some x => PBool x | None => PBool (gd_additional_default gd) end)
+      replace (deref hp match k_additional kb with Some x => PBool x | None => PBool (gd_additional_default gd) end)
         with (PBool (match k_additional kb with Some x => x | None => gd_additional_default gd end))
         by (destruct (k_additional kb); reflexivity).
       destruct (match k_additional kb with Some x => x | None => gd_additional_default gd end); cbn [py_truthy py_and bind].
@@ -2195,16 +2219,17 @@ Qed.
 Definition v_fields_of_mro (g : genv) (mro : list pystr) : list (pystr * pyval) :=
   mro_fold (fun c nm => ref (member_obj c (fst nm))) g mro.
 
-Theorem get_all_fields_by_name_src so X gd g extra c kc :
+Theorem get_all_fields_by_name_gen so X hp gd g extra c kc :
+  env_view hp gd g extra ->
   find_klass g c = Some kc -> mro_plain g (k_mro kc) = true ->
-  DefineSrc.get_all_fields_by_name so X (genv_heap gd g extra) (ref c) =
+  DefineSrc.get_all_fields_by_name so X hp (ref c) =
   Ok (PDict (skeys (v_fields_of_mro g (k_mro kc)))).
 Proof.
-  intros Hk Hpl. unfold DefineSrc.get_all_fields_by_name. cbv zeta.
-  rewrite (heap_mro gd g extra c kc Hk). cbn [bind]. rewrite deref_list. cbn [dv_iter bind].
+  intros Hev Hk Hpl. unfold DefineSrc.get_all_fields_by_name. cbv zeta.
+  rewrite (ev_mro _ _ _ _ Hev c kc Hk). cbn [bind]. rewrite deref_list. cbn [dv_iter bind].
   set (isstruct := fun x => match find_klass g x with Some k => k_is_struct k | None => false end).
   rewrite (comp_refs _ isstruct).
-  2:{ intros b _. rewrite heap_isinstance_struct. cbn [bind]. unfold isstruct. destruct (find_klass g b) as [k|]; [destruct (k_is_struct k)|]; reflexivity. }
+  2:{ intros b _. rewrite (ev_struct _ _ _ _ Hev). cbn [bind]. unfold isstruct. destruct (find_klass g b) as [k|]; [destruct (k_is_struct k)|]; reflexivity. }
   cbn [bind]. rewrite deref_list. cbn [dv_reversed bind]. rewrite deref_list. cbn [dv_iter bind].
   unfold v_refs. rewrite <- map_rev. fold (v_refs (rev (filter isstruct (k_mro kc)))). rewrite <- filter_rev.
   unfold v_fields_of_mro, mro_fold.
@@ -2225,22 +2250,57 @@ Proof.
       cbn [map]. unfold alist_merge at 1. cbn [fold_left]. apply IH. exact Ht. }
   replace (own_of g x) with (k_own kx) by (unfold own_of; rewrite Hkx, Es; reflexivity).
   cbn [v_refs map]. fold (v_refs (filter isstruct t)). unfold dv_foldM at 1. cbn [py_foldM]. fold (@dv_foldM pyval).
-  cbn [bind]. rewrite heap_isinstance_struct, Hkx, Es. cbn [bind].
+  cbn [bind]. rewrite (ev_struct _ _ _ _ Hev), Hkx, Es. cbn [bind].
   unfold own_plain in Hpl'. apply andb_true_iff in Hpl' as [Hnames Hnd]. apply negb_true_iff in Hnd. apply has_dup_false_NoDup in Hnd.
-  assert (Ef : dv_getattr_def (genv_heap gd g extra) (ref x) (s2p "_fields") (PList []) = Ok (v_names (map fst (k_own kx)))).
-  { unfold ref. cbn [dv_getattr_def obj_getattr_def]. rewrite pystr_eqb_refl. unfold genv_heap. rewrite Hkx. reflexivity. }
+  pose proof (ev_fields _ _ _ _ Hev x kx Hkx) as Ef.
   rewrite Ef. cbn [bind]. unfold v_names at 1. rewrite deref_list. cbn [dv_iter bind]. fold (v_strs (map fst (k_own kx))).
   rewrite (comp_strs _ (fun _ => true) (fun n => v_item (n, ref (member_obj x n)))).
-  2:{ intros n Hn. unfold dv_getattr_dyn. unfold ref at 1. cbn [dv_getattr obj_getattr]. rewrite pystr_eqb_refl.
-      unfold genv_heap. rewrite Hkx. rewrite forallb_forall in Hnames. specialize (Hnames n Hn).
+  2:{ intros n Hn. rewrite forallb_forall in Hnames. specialize (Hnames n Hn).
       apply andb_true_iff in Hnames as [Hp Hs]. apply negb_true_iff in Hp, Hs.
-      rewrite (class_attr_member kx (extra x) n Hp Hs) by (apply alist_has_In; exact Hn).
-      rewrite (find_klass_name g x kx Hkx). reflexivity. }
+      rewrite (ev_member _ _ _ _ Hev x kx n Hkx Hn Hp Hs). reflexivity. }
   cbn [bind]. rewrite (filter_all _ (map fst (k_own kx))) by (apply forallb_forall; reflexivity).
   rewrite map_map. rewrite <- (map_map (fun nm : pystr * member => (fst nm, ref (member_obj x (fst nm)))) v_item).
   rewrite dict_of_items by (rewrite map_map; cbn [fst]; exact Hnd). cbn [bind].
   rewrite dict_update_skeys. cbn [bind]. apply IH. exact Ht.
 Qed.
+
+(* the heap of a class environment answers as [env_view] says *)
+Lemma genv_env_view gd g extra : env_view (genv_heap gd g extra) gd g extra.
+Proof.
+  constructor.
+  - apply heap_isinstance_struct.
+  - apply heap_isinstance_fieldmeta.
+  - apply heap_issubclass.
+  - apply heap_signature.
+  - apply heap_class_dict.
+  - apply heap_mro.
+  - apply heap_addl_default.
+  - intros x kx Hkx. unfold ref. cbn [dv_getattr_def obj_getattr_def]. rewrite pystr_eqb_refl. unfold genv_heap. rewrite Hkx. reflexivity.
+  - intros x kx n Hkx Hn Hp Hs. unfold dv_getattr_dyn. unfold ref at 1. cbn [dv_getattr obj_getattr]. rewrite pystr_eqb_refl.
+    unfold genv_heap. rewrite Hkx. rewrite (class_attr_member kx (extra x) n Hp Hs) by (apply alist_has_In; exact Hn).
+    rewrite (find_klass_name g x kx Hkx). reflexivity.
+Qed.
+
+Theorem check_final_src so X gd g extra name mro_tail :
+  DefineSrc.check_for_final_violations so X (genv_heap gd g extra) (PList (v_refs (name :: mro_tail))) =
+  if final_violation g mro_tail then Raise TypeError else Ok PNone.
+Proof. apply (check_final_gen so X _ gd g extra). apply genv_env_view. Qed.
+
+Theorem get_base_info_src so X gd g extra bases r :
+  bases_ok g extra bases = true ->
+  base_info gd g bases [] false = r -> r <> Raise Unmodelled ->
+  DefineSrc.get_base_info so X (genv_heap gd g extra) (PTuple (v_refs bases)) =
+  match r with
+  | Ok bp => Ok (PTuple [v_params bp; v_names (bases_required bp)])
+  | Raise x => Raise x
+  end.
+Proof. apply (get_base_info_gen so X _ gd g extra). apply genv_env_view. Qed.
+
+Theorem get_all_fields_by_name_src so X gd g extra c kc :
+  find_klass g c = Some kc -> mro_plain g (k_mro kc) = true ->
+  DefineSrc.get_all_fields_by_name so X (genv_heap gd g extra) (ref c) =
+  Ok (PDict (skeys (v_fields_of_mro g (k_mro kc)))).
+Proof. apply (get_all_fields_by_name_gen so X _ gd g extra). apply genv_env_view. Qed.
 
 (* the dict of the source and the model's fields_of_mro have the same names in the same order *)
 Lemma fields_of_mro_names g mro :
